@@ -333,7 +333,7 @@ func c15Child(raw json.RawMessage) any {
 	if sc.EndDuringOpen > 0 && n >= 2 && endInjected.Load() {
 		// the ended stream carries nothing more; its vBucket is covered again once it has been requested again
 		deadline := time.Now().Add(8 * time.Second) // beyond the 5 re-open attempts
-		for cl.openCountOf(uint16(lo)) < 2 && time.Now().Before(deadline) {
+		for cl.openCountOf(uint16(lo)) < 2 && !deadlinePassed(deadline) {
 			time.Sleep(5 * time.Millisecond)
 		}
 		if cl.openCountOf(uint16(lo)) < 2 {
